@@ -81,9 +81,11 @@ Module C08NV.
   Definition l_sick : prev := hd latest0 (fst st_sick).
   Definition l_done : prev := hd latest0 (fst st_done).
   (* the end of the rollout as sync_rolling_update returns it *)
+  Definition old2e : prev := mk_prev 1 (rev_of "p-r1" "uid-r1" 1 []).   (* as read back from the server *)
+  Definition server_revs : list revision := [pr_rev latest2; pr_rev old2e].
   Definition final : list prev :=
-    match sync_rolling_update cfg "ns" obs2 [latest2; old2] with Some (prs, _) => prs | None => [] end.
-  Definition final_old : prev := nth 1 final old2.
+    match sync_rolling_update cfg "ns" obs2 [latest2; old2e] with Some (prs, _) => prs | None => [] end.
+  Definition final_old : prev := nth 1 final latest0.
   Definition api_ok : env := fun _ cl => match cl with CApi q => AObj (q_body q) | _ => AHookErr end.
   Definition call_sig (cl : call) : verb * string * string :=
     match cl with CApi q => (q_verb q, q_name q, q_uid_pre q) | CHook _ _ => (VGet, "hook", "") end.
@@ -162,11 +164,11 @@ Example C08_cleanup_inhabited :
   kids_of final = [things ["c"; "a"; "b"]; []] /\
   nodup_str (map (fun x => rev_name (pr_rev x)) final) = true /\
   In final_old (tl final) /\ count_children (pr_rev final_old) = 0 /\
-  In (pr_rev final_old) [pr_rev (hd latest2 final); pr_rev final_old] /\
+  In (pr_rev final_old) server_revs /\ In (pr_rev final_old) (map pr_rev final) /\
   map (fun p => rev_name (pr_rev p)) (prune final) = ["p-r2"] /\
   existsb (fun d => rev_name d =? rev_name (pr_rev final_old)) (map pr_rev (prune final)) = false /\
   map (fun ca => call_sig (fst ca))
-      (trace_of (manage_revisions "ns" [pr_rev latest2; pr_rev old2] (map pr_rev (prune final))) api_ok) =
+      (trace_of (manage_revisions "ns" server_revs (map pr_rev (prune final))) api_ok) =
     [(VDelete, "p-r1", "uid-r1")] /\
   (* at the first step both revisions are kept, and the moved children are persisted in them *)
   map (fun ca => call_sig (fst ca))
